@@ -8,7 +8,7 @@
 
 use encoding_rs_io::DecodeReaderBytesBuilder;
 use saphyr_parser::BufferedInput;
-use std::cell::RefCell;
+use std::cell::{Cell, RefCell};
 use std::io::{self, BufReader, Error, Read};
 use std::rc::Rc;
 
@@ -16,6 +16,26 @@ type DynReader<'a> = Box<dyn Read + 'a>;
 type DynBufReader<'a> = BufReader<DynReader<'a>>;
 pub type ReaderInput<'a> = BufferedInput<ChunkedChars<DynBufReader<'a>>>;
 pub type ReaderInputError = Rc<RefCell<Option<Error>>>;
+
+/// How far a reader's stream has been consumed, shared with the event source so that a position
+/// at the end of a stream without final line break can be reported on its last line.
+#[derive(Debug, Default)]
+pub struct ReaderTail {
+    /// Characters delivered by the reader so far.
+    chars: Cell<usize>,
+    /// Characters delivered since the last line break.
+    last_line_chars: Cell<usize>,
+    /// The reader has stopped delivering (end of input, error or size limit).
+    ended: Cell<bool>,
+}
+
+impl ReaderTail {
+    /// `(total characters, characters in the last line)` once the stream has ended inside a line.
+    pub(crate) fn ended_in_line(&self) -> Option<(usize, usize)> {
+        (self.ended.get() && self.last_line_chars.get() > 0)
+            .then(|| (self.chars.get(), self.last_line_chars.get()))
+    }
+}
 
 pub struct ChunkedChars<R: Read> {
     /// Optional hard cap on total decoded UTF-8 bytes yielded by this iterator.
@@ -32,6 +52,8 @@ pub struct ChunkedChars<R: Read> {
     at_line_start: bool,
     /// True while the current line began with `%` at column 0 (a directive line to the scanner).
     in_directive_line: bool,
+    /// Account of the characters delivered, shared with the event source.
+    tail: Rc<ReaderTail>,
 }
 
 impl<R: Read> ChunkedChars<R> {
@@ -43,7 +65,12 @@ impl<R: Read> ChunkedChars<R> {
             err,
             at_line_start: true,
             in_directive_line: false,
+            tail: Rc::default(),
         }
+    }
+
+    pub(crate) fn tail(&self) -> Rc<ReaderTail> {
+        self.tail.clone()
     }
 }
 
@@ -56,6 +83,12 @@ impl<R: Read> Iterator for ChunkedChars<R> {
     fn next(&mut self) -> Option<char> {
         match self.next_char() {
             Some(c) => {
+                self.tail.chars.set(self.tail.chars.get() + 1);
+                if c == '\n' || c == '\r' {
+                    self.tail.last_line_chars.set(0);
+                } else {
+                    self.tail.last_line_chars.set(self.tail.last_line_chars.get() + 1);
+                }
                 if self.at_line_start && c != '\u{feff}' {
                     self.in_directive_line = c == '%';
                     self.at_line_start = false;
@@ -67,6 +100,7 @@ impl<R: Read> Iterator for ChunkedChars<R> {
                 Some(c)
             }
             None if self.in_directive_line => {
+                self.tail.ended.set(true);
                 // The input stops (EOF, I/O error or size limit) inside a line that started
                 // with `%`. `BufferedInput` pads the end of input with NUL characters, which the
                 // parser's directive scanner takes for directive text: it would never return.
@@ -74,7 +108,10 @@ impl<R: Read> Iterator for ChunkedChars<R> {
                 self.in_directive_line = false;
                 Some('\n')
             }
-            None => None,
+            None => {
+                self.tail.ended.set(true);
+                None
+            }
         }
     }
 }
@@ -165,12 +202,13 @@ impl<R: Read> ChunkedChars<R> {
     }
 }
 
-/// Creates buffered input and returns both input and reference to the variable
-/// holding the possible error. We cannot otherwise later reach our ChunkedChars.
+/// Creates buffered input and returns the input, a reference to the variable holding the
+/// possible error, and the reader's account of the characters it delivered. We cannot
+/// otherwise later reach our ChunkedChars.
 pub fn buffered_input_from_reader_with_limit<'a, R: Read + 'a>(
     reader: R,
     max_bytes: Option<usize>,
-) -> (ReaderInput<'a>, ReaderInputError) {
+) -> (ReaderInput<'a>, ReaderInputError, Rc<ReaderTail>) {
     // Auto-detect encoding (BOM or guess), decode to UTF-8 on the fly.
     let decoder = DecodeReaderBytesBuilder::new()
         .encoding(None) // None = sniff BOM / use heuristics; set Some(encoding) to force
@@ -180,8 +218,9 @@ pub fn buffered_input_from_reader_with_limit<'a, R: Read + 'a>(
 
     let br = BufReader::new(Box::new(decoder) as DynReader<'a>);
     let char_iter = ChunkedChars::new(br, max_bytes, error.clone());
+    let tail = char_iter.tail();
 
-    (BufferedInput::new(char_iter), error)
+    (BufferedInput::new(char_iter), error, tail)
 }
 
 #[cfg(test)]
